@@ -8,6 +8,7 @@ package esp
 import (
 	"fmt"
 	"go/ast"
+	"go/constant"
 	"go/token"
 	"go/types"
 	"sort"
@@ -48,14 +49,22 @@ func (t *trace) list() []string {
 
 // State is one abstract state.
 type State struct {
-	TS     string
-	Env    map[string]Tri
-	defers []ast.Node
-	Ret    token.Pos // first return statement reached on this path (0 = fell off the end)
+	TS      string
+	Env     map[string]Tri
+	defers  []ast.Node
+	Ret     token.Pos // first return statement reached on this path (0 = fell off the end)
 	RetStmt *ast.ReturnStmt
-	Panic  bool
-	dead   bool // a violation was reported on this path: the error state is absorbing
-	tr     *trace
+	Panic   bool
+	dead    bool // a violation was reported on this path: the error state is absorbing
+	tr      *trace
+	stack   []*types.Func // functions being explored inline (innermost last)
+	// nil-ness of the last result of the inlined call that just returned (consumed by the
+	// assignment that stores it)
+	retNil   Tri
+	retCall  *ast.CallExpr
+	retFacts map[string]Tri
+	// parameters of inlined callees bound to the caller's variable they were passed
+	bind map[types.Object]types.Object
 }
 
 func (s *State) key() string {
@@ -64,11 +73,11 @@ func (s *State) key() string {
 		ks = append(ks, fmt.Sprintf("%s=%d", k, v))
 	}
 	sort.Strings(ks)
-	return s.TS + "|" + strings.Join(ks, ",") + "|" + fmt.Sprint(len(s.defers))
+	return s.TS + "|" + strings.Join(ks, ",") + "|" + fmt.Sprint(len(s.defers)) + "|" + fmt.Sprint(len(s.stack)) + "|" + fmt.Sprint(s.retNil)
 }
 
 func (s *State) clone() *State {
-	n := &State{TS: s.TS, Env: make(map[string]Tri, len(s.Env)), defers: append([]ast.Node(nil), s.defers...), Ret: s.Ret, RetStmt: s.RetStmt, Panic: s.Panic, tr: s.tr}
+	n := &State{TS: s.TS, Env: make(map[string]Tri, len(s.Env)), defers: append([]ast.Node(nil), s.defers...), Ret: s.Ret, RetStmt: s.RetStmt, Panic: s.Panic, tr: s.tr, stack: s.stack, retNil: s.retNil, retCall: s.retCall, bind: s.bind}
 	for k, v := range s.Env {
 		n.Env[k] = v
 	}
@@ -115,21 +124,28 @@ type Rule struct {
 	Branch func(c *Ctx, cond ast.Expr, val bool)
 	// Exit is invoked for every exit state after deferred code ran.
 	Exit func(c *Ctx)
+	// Inline says whether a statically resolved call to a function of the same package should be
+	// explored inline (its body contains events of this rule). Depth ≤ 2, no recursion. The
+	// call event itself is delivered first, then the callee's events in its own control flow.
+	Inline func(callee *types.Func, decl *ast.FuncDecl) bool
 	// BackEdge is invoked when a loop back edge is taken (edge into a block that dominates
 	// in source order: target index <= source index and target is a loop head).
 	BackEdge func(c *Ctx, from, to *cfg.Block)
 }
 
 type Explorer struct {
-	W     *core.World
-	Info  *types.Info
-	R     *Rule
-	Steps int
-	Exits int
-	viol  map[string]*Violation
-	track map[string]bool
-	sites map[*ast.CallExpr]string
-	unsafe map[string]bool
+	W       *core.World
+	Info    *types.Info
+	R       *Rule
+	Steps   int
+	Exits   int
+	viol    map[string]*Violation
+	track   map[string]bool
+	sites   map[*ast.CallExpr]string
+	unsafe  map[string]bool
+	evCache map[ast.Node][]event
+	indexed map[*ast.FuncDecl]bool
+	root    *ast.FuncDecl
 	// Undecided constructs (fail closed)
 	MaxSteps int
 }
@@ -155,6 +171,19 @@ func (c *Ctx) SetFact(key string, val bool) {
 	}
 }
 
+// Root resolves a parameter of an inlined callee to the caller's variable that was passed for
+// it (an identifier argument or the receiver expression); other objects are returned unchanged.
+func (c *Ctx) Root(o types.Object) types.Object {
+	for i := 0; i < 4 && o != nil; i++ {
+		r, ok := c.S.bind[o]
+		if !ok {
+			break
+		}
+		o = r
+	}
+	return o
+}
+
 // Fact returns the current three-valued fact for an expression key.
 func (c *Ctx) Fact(key string) Tri { return c.S.Env[key] }
 
@@ -176,6 +205,65 @@ func (ex *Explorer) isBool(e ast.Expr) bool {
 	}
 	b, ok := t.Underlying().(*types.Basic)
 	return ok && b.Info()&types.IsBoolean != 0
+}
+
+// cmpCanon rewrites an integer comparison against a constant into the canonical fact key
+// "X >= c": X < c ≡ !(X >= c), X > c ≡ X >= c+1, X <= c ≡ !(X >= c+1) (and the mirrored forms
+// with the constant on the left). neg says the expression is the negation of the key.
+func (ex *Explorer) cmpCanon(e ast.Expr) (key string, neg, ok bool) {
+	be, isB := e.(*ast.BinaryExpr)
+	if !isB {
+		return
+	}
+	op := be.Op
+	x, y := be.X, be.Y
+	cval := func(e ast.Expr) (int64, bool) {
+		if tv, ok := ex.Info.Types[e]; ok && tv.Value != nil && tv.Value.Kind() == constant.Int {
+			return constant.Int64Val(tv.Value)
+		}
+		return 0, false
+	}
+	c, isC := cval(y)
+	if !isC {
+		// constant on the left: c OP x  ≡  x OP' c
+		var okL bool
+		c, okL = cval(x)
+		if !okL {
+			return
+		}
+		x = y
+		switch op {
+		case token.LSS:
+			op = token.GTR
+		case token.GTR:
+			op = token.LSS
+		case token.LEQ:
+			op = token.GEQ
+		case token.GEQ:
+			op = token.LEQ
+		default:
+			return
+		}
+	}
+	if _, isConstX := cval(x); isConstX {
+		return
+	}
+	if t := ex.Info.TypeOf(x); t == nil {
+		return
+	} else if b, isBasic := t.Underlying().(*types.Basic); !isBasic || b.Info()&types.IsInteger == 0 {
+		return
+	}
+	switch op {
+	case token.GEQ:
+		return fmt.Sprintf("%s >= %d", exprKey(x), c), false, true
+	case token.LSS:
+		return fmt.Sprintf("%s >= %d", exprKey(x), c), true, true
+	case token.GTR:
+		return fmt.Sprintf("%s >= %d", exprKey(x), c+1), false, true
+	case token.LEQ:
+		return fmt.Sprintf("%s >= %d", exprKey(x), c+1), true, true
+	}
+	return
 }
 
 func (ex *Explorer) evalCond(e ast.Expr, env map[string]Tri) Tri {
@@ -239,6 +327,14 @@ func (ex *Explorer) evalCond(e ast.Expr, env map[string]Tri) Tri {
 	}
 	if v, ok := env[exprKey(e)]; ok {
 		return v
+	}
+	if k, neg, ok := ex.cmpCanon(e); ok {
+		if v, ok := env[k]; ok && v != Unk {
+			if (v == T) != neg {
+				return T
+			}
+			return F
+		}
 	}
 	// x != nil is the negation of x == nil
 	if be, ok := e.(*ast.BinaryExpr); ok && (be.Op == token.NEQ || be.Op == token.EQL) {
@@ -315,6 +411,10 @@ func (ex *Explorer) refine(e ast.Expr, val bool, env map[string]Tri) {
 				return
 			}
 		}
+	}
+	if k, neg, ok := ex.cmpCanon(e); ok {
+		ex.setFact(env, k, val != neg)
+		return
 	}
 	ex.setFact(env, exprKey(e), val)
 }
@@ -411,6 +511,7 @@ func New(w *core.World, fi *core.FuncInfo, r *Rule) *Explorer {
 	}
 	walk(fi.Decl.Body, false)
 	ex.unsafe = unsafe
+	ex.root = fi.Decl
 	count := map[string]int{}
 	ast.Inspect(fi.Decl, func(n ast.Node) bool {
 		switch x := n.(type) {
@@ -490,17 +591,18 @@ func mayReturn(info *types.Info) func(*ast.CallExpr) bool {
 func (ex *Explorer) run(body *ast.BlockStmt, s0 *State, inDefer bool) []*State {
 	g := cfg.New(body, mayReturn(ex.Info))
 	type item struct {
-		b *cfg.Block
-		s *State
+		b    *cfg.Block
+		i, j int // resume at node i, event j (after an inlined call)
+		s    *State
 	}
 	seen := map[string]bool{}
 	var exits []*State
 	baseDefers := len(s0.defers)
-	work := []item{{g.Blocks[0], s0}}
+	work := []item{{g.Blocks[0], 0, 0, s0}}
 	for len(work) > 0 {
 		it := work[len(work)-1]
 		work = work[:len(work)-1]
-		k := fmt.Sprintf("%d|%s", it.b.Index, it.s.key())
+		k := fmt.Sprintf("%d.%d.%d|%s", it.b.Index, it.i, it.j, it.s.key())
 		if seen[k] {
 			continue
 		}
@@ -513,25 +615,63 @@ func (ex *Explorer) run(body *ast.BlockStmt, s0 *State, inDefer bool) []*State {
 		}
 		st := it.s.clone()
 		c := &Ctx{W: ex.W, Info: ex.Info, S: st, ex: ex, InDefer: inDefer}
-		if len(it.b.Nodes) > 0 {
+		if len(it.b.Nodes) > 0 && it.i == 0 && it.j == 0 {
 			st.tr = &trace{st.tr, fmt.Sprintf("%s [%s]", ex.W.Pos(it.b.Nodes[0].Pos()), st.TS)}
 		}
 		var lastExpr ast.Expr
 		returned := false
 		panicked := false
-		for _, n := range it.b.Nodes {
+		suspended := false
+		for idx := it.i; idx < len(it.b.Nodes); idx++ {
+			n := it.b.Nodes[idx]
 			if st.dead {
 				break
 			}
 			lastExpr = nil
-			if ex.R.Node != nil {
+			startEv := 0
+			if idx == it.i {
+				startEv = it.j
+			}
+			if startEv == 0 && ex.R.Node != nil {
 				ex.R.Node(c, n)
+			}
+			// events of the node in evaluation order; a call that is explored inline suspends
+			// the node: one continuation per exit state of the callee resumes after that event
+			var evs []event
+			if ds, ok := n.(*ast.DeferStmt); ok {
+				for _, a := range ds.Call.Args {
+					evs = append(evs, ex.events(a)...)
+				}
+			} else {
+				evs = ex.events(n)
+			}
+			for k := startEv; k < len(evs) && !st.dead; k++ {
+				ev := evs[k]
+				if ev.lit != nil {
+					if ex.R.FuncLit != nil {
+						c.Conditional = ev.cond
+						ex.R.FuncLit(c, ev.lit)
+						c.Conditional = false
+					}
+					continue
+				}
+				ex.callEvent(c, ev.call, ev.cond)
+				if st.dead {
+					break
+				}
+				if fi := ex.inlinable(ev.call, st, ev.cond); fi != nil {
+					for _, o := range ex.inline(fi, ev.call, st, inDefer) {
+						work = append(work, item{it.b, idx, k + 1, o})
+					}
+					suspended = true
+					break
+				}
+			}
+			if suspended || st.dead {
+				break
 			}
 			switch x := n.(type) {
 			case *ast.DeferStmt:
-				for _, a := range x.Call.Args {
-					ex.scan(c, a, false)
-				}
 				if fl, ok := x.Call.Fun.(*ast.FuncLit); ok {
 					st.defers = append(st.defers, fl)
 				} else {
@@ -539,24 +679,37 @@ func (ex *Explorer) run(body *ast.BlockStmt, s0 *State, inDefer bool) []*State {
 				}
 				continue
 			case *ast.ReturnStmt:
-				ex.scan(c, x, false)
 				returned = true
 				if st.Ret == 0 {
 					st.Ret = x.Pos()
 					st.RetStmt = x
 				}
 			case *ast.AssignStmt:
-				ex.scan(c, x, false)
 				ex.assign(x, st)
+				// err = helper() / v, err := helper(): the inlined callee's path knows whether it
+				// returned a nil error
+				if st.retCall != nil && st.retNil != Unk && len(x.Rhs) == 1 && len(x.Lhs) >= 1 {
+					rhs := x.Rhs[0]
+					for {
+						if p, ok := rhs.(*ast.ParenExpr); ok {
+							rhs = p.X
+							continue
+						}
+						break
+					}
+					if rhs == ast.Expr(st.retCall) {
+						if id, ok := x.Lhs[len(x.Lhs)-1].(*ast.Ident); ok && id.Name != "_" {
+							ex.setFact(st.Env, id.Name+" == nil", st.retNil == T)
+						}
+					}
+				}
 			case *ast.IncDecStmt:
-				ex.scan(c, x, false)
 				if id, ok := x.X.(*ast.Ident); ok {
 					kill(st.Env, id.Name)
 				} else {
 					kill(st.Env, exprKey(x.X))
 				}
 			case *ast.DeclStmt:
-				ex.scan(c, x, false)
 				if gd, ok := x.Decl.(*ast.GenDecl); ok {
 					for _, sp := range gd.Specs {
 						if vs, ok := sp.(*ast.ValueSpec); ok {
@@ -565,21 +718,18 @@ func (ex *Explorer) run(body *ast.BlockStmt, s0 *State, inDefer bool) []*State {
 					}
 				}
 			case *ast.ValueSpec:
-				ex.scan(c, x, false)
 				ex.valueSpec(x, st)
-			case *ast.GoStmt:
-				ex.scan(c, x, false)
 			case *ast.ExprStmt:
-				ex.scan(c, x, false)
 				if call, ok := x.X.(*ast.CallExpr); ok && !mayReturn(ex.Info)(call) {
 					panicked = true
 				}
 			case ast.Expr:
-				ex.scan(c, x, false)
 				lastExpr = x
-			default:
-				ex.scan(c, n, false)
 			}
+			st.retNil, st.retCall, st.retFacts = Unk, nil, nil
+		}
+		if suspended {
+			continue
 		}
 		if st.dead {
 			continue
@@ -639,14 +789,14 @@ func (ex *Explorer) run(body *ast.BlockStmt, s0 *State, inDefer bool) []*State {
 					}
 				}
 				ex.edge(it.b, it.b.Succs[bi], s1, inDefer)
-				work = append(work, item{it.b.Succs[bi], s1})
+				work = append(work, item{it.b.Succs[bi], 0, 0, s1})
 			}
 			continue
 		}
 		for _, su := range it.b.Succs {
 			s1 := st.clone()
 			ex.edge(it.b, su, s1, inDefer)
-			work = append(work, item{su, s1})
+			work = append(work, item{su, 0, 0, s1})
 		}
 	}
 	return exits
@@ -740,6 +890,302 @@ func (ex *Explorer) scan(c *Ctx, n ast.Node, cond bool) {
 		}
 		return true
 	})
+}
+
+type event struct {
+	call *ast.CallExpr
+	lit  *ast.FuncLit
+	cond bool
+}
+
+// events lists the calls and function literals of n in evaluation order (arguments before the
+// call); cond marks those in the right operand of a short-circuit operator.
+func (ex *Explorer) events(n ast.Node) []event {
+	if evs, ok := ex.evCache[n]; ok {
+		return evs
+	}
+	var out []event
+	var walk func(n ast.Node, cond bool)
+	walk = func(n ast.Node, cond bool) {
+		ast.Inspect(n, func(m ast.Node) bool {
+			switch x := m.(type) {
+			case *ast.FuncLit:
+				out = append(out, event{lit: x, cond: cond})
+				return false
+			case *ast.BinaryExpr:
+				if x.Op == token.LAND || x.Op == token.LOR {
+					walk(x.X, cond)
+					walk(x.Y, true)
+					return false
+				}
+			case *ast.CallExpr:
+				for _, a := range x.Args {
+					walk(a, cond)
+				}
+				walk(x.Fun, cond)
+				out = append(out, event{call: x, cond: cond})
+				return false
+			}
+			return true
+		})
+	}
+	walk(n, false)
+	if ex.evCache == nil {
+		ex.evCache = map[ast.Node][]event{}
+	}
+	ex.evCache[n] = out
+	return out
+}
+
+// inlinable returns the declaration of the callee when the rule wants the call explored inline.
+func (ex *Explorer) inlinable(call *ast.CallExpr, st *State, cond bool) *core.FuncInfo {
+	if ex.R.Inline == nil || len(st.stack) >= 2 {
+		return nil
+	}
+	f, _ := typeutil.Callee(ex.Info, call).(*types.Func)
+	if f == nil {
+		return nil
+	}
+	for _, g := range st.stack {
+		if g == f {
+			return nil
+		}
+	}
+	fi := ex.W.DeclOf(f)
+	if fi == nil || fi.Decl.Body == nil || fi.Pkg.TypesInfo != ex.Info || fi.Decl == ex.root {
+		return nil
+	}
+	if !ex.R.Inline(f, fi.Decl) {
+		return nil
+	}
+	if cond {
+		// a callee with events inside a short-circuit operand is not modelled
+		c := &Ctx{W: ex.W, Info: ex.Info, S: st, ex: ex}
+		c.Violate(call.Pos(), "undecided:shortcircuit-inline:"+ex.sites[call], "a helper containing typestate events is called in the right operand of &&/||; undecided")
+		return nil
+	}
+	return fi
+}
+
+// inline explores the callee's body from st and returns the states in which the caller
+// continues. Facts about the caller's locals that share a name with something declared in the
+// callee are set aside and restored; facts keyed on an argument path are carried over to the
+// parameter name and back.
+func (ex *Explorer) inline(fi *core.FuncInfo, call *ast.CallExpr, st *State, inDefer bool) []*State {
+	if !ex.indexed[fi.Decl] {
+		if ex.indexed == nil {
+			ex.indexed = map[*ast.FuncDecl]bool{}
+		}
+		ex.indexed[fi.Decl] = true
+		count := map[string]int{}
+		ast.Inspect(fi.Decl.Body, func(n ast.Node) bool {
+			if x, ok := n.(*ast.CallExpr); ok {
+				name := "call"
+				if f, _ := typeutil.Callee(ex.Info, x).(*types.Func); f != nil {
+					name = f.Name()
+				} else if id, ok := x.Fun.(*ast.Ident); ok {
+					name = id.Name
+				}
+				count[name]++
+				ex.sites[x] = fmt.Sprintf("%s/%s#%d", fi.Obj.Name(), name, count[name])
+			}
+			return true
+		})
+	}
+	declared := map[string]bool{}
+	ast.Inspect(fi.Decl, func(n ast.Node) bool {
+		if id, ok := n.(*ast.Ident); ok && ex.Info.Defs[id] != nil {
+			declared[id.Name] = true
+		}
+		return true
+	})
+	mentionsDeclared := func(k string) bool {
+		for nm := range declared {
+			if mentions(k, nm) {
+				return true
+			}
+		}
+		return false
+	}
+	// argument path -> parameter name
+	type ren struct{ from, to string }
+	var rens []ren
+	simple := func(e ast.Expr) (string, bool) {
+		for x := e; ; {
+			switch y := x.(type) {
+			case *ast.Ident:
+				return exprKey(e), true
+			case *ast.SelectorExpr:
+				x = y.X
+			case *ast.ParenExpr:
+				x = y.X
+			default:
+				return "", false
+			}
+		}
+	}
+	if fi.Decl.Recv != nil && len(fi.Decl.Recv.List) == 1 && len(fi.Decl.Recv.List[0].Names) == 1 {
+		if se, ok := call.Fun.(*ast.SelectorExpr); ok {
+			if from, ok := simple(se.X); ok && from != fi.Decl.Recv.List[0].Names[0].Name {
+				rens = append(rens, ren{from, fi.Decl.Recv.List[0].Names[0].Name})
+			}
+		}
+	}
+	pi := 0
+	for _, f := range fi.Decl.Type.Params.List {
+		for _, nm := range f.Names {
+			if pi < len(call.Args) {
+				a := call.Args[pi]
+				if u, ok := a.(*ast.UnaryExpr); ok && u.Op == token.AND {
+					a = u.X
+				}
+				if from, ok := simple(a); ok && from != nm.Name {
+					rens = append(rens, ren{from, nm.Name})
+				}
+			}
+			pi++
+		}
+	}
+	s2 := st.clone()
+	s2.stack = append(append([]*types.Func(nil), st.stack...), fi.Obj)
+	nb := map[types.Object]types.Object{}
+	for k, v := range st.bind {
+		nb[k] = v
+	}
+	bindTo := func(param *ast.Ident, arg ast.Expr) {
+		po := ex.Info.Defs[param]
+		for {
+			if p, ok := arg.(*ast.ParenExpr); ok {
+				arg = p.X
+				continue
+			}
+			break
+		}
+		if id, ok := arg.(*ast.Ident); ok && po != nil {
+			if ao := ex.Info.ObjectOf(id); ao != nil {
+				if r, ok := nb[ao]; ok {
+					ao = r
+				}
+				nb[po] = ao
+			}
+		}
+	}
+	if fi.Decl.Recv != nil && len(fi.Decl.Recv.List) == 1 && len(fi.Decl.Recv.List[0].Names) == 1 {
+		if se, ok := call.Fun.(*ast.SelectorExpr); ok {
+			bindTo(fi.Decl.Recv.List[0].Names[0], se.X)
+		}
+	}
+	bi := 0
+	for _, f := range fi.Decl.Type.Params.List {
+		for _, nm := range f.Names {
+			if bi < len(call.Args) {
+				bindTo(nm, call.Args[bi])
+			}
+			bi++
+		}
+	}
+	s2.bind = nb
+	s2.Ret, s2.RetStmt = 0, nil
+	saved := map[string]Tri{}
+	for k, v := range s2.Env {
+		if mentionsDeclared(k) {
+			saved[k] = v
+			delete(s2.Env, k)
+		}
+	}
+	renameKeys := func(env map[string]Tri, from, to string) {
+		for k, v := range env {
+			if mentions(k, from) {
+				nk := replaceIdent(k, from, to)
+				delete(env, k)
+				env[nk] = v
+				ex.track[nk] = true
+			}
+		}
+	}
+	for _, rn := range rens {
+		renameKeys(s2.Env, rn.from, rn.to)
+	}
+	s2.tr = &trace{s2.tr, fmt.Sprintf("%s: enter %s [%s]", ex.W.Pos(call.Pos()), fi.Obj.Name(), s2.TS)}
+	var out []*State
+	for _, o := range ex.run(fi.Decl.Body, s2, inDefer) {
+		if o.Panic || o.dead {
+			continue
+		}
+		retFacts := map[string]Tri{}
+		for k, v := range o.Env {
+			if strings.HasSuffix(k, " == nil") {
+				retFacts[strings.TrimSuffix(k, " == nil")] = v
+			}
+		}
+		o.retFacts = retFacts
+		for i := len(rens) - 1; i >= 0; i-- {
+			// facts about the parameter path hold for the argument path
+			for k, v := range o.Env {
+				if mentions(k, rens[i].to) {
+					nk := replaceIdent(k, rens[i].to, rens[i].from)
+					delete(o.Env, k)
+					if !mentionsDeclared(nk) {
+						o.Env[nk] = v
+						ex.track[nk] = true
+					}
+				}
+			}
+		}
+		for k := range o.Env {
+			if mentionsDeclared(k) {
+				delete(o.Env, k)
+			}
+		}
+		for k, v := range saved {
+			o.Env[k] = v
+		}
+		// nil-ness of the callee's last result on this path
+		o.retNil, o.retCall = Unk, call
+		if rs := o.RetStmt; rs != nil && len(rs.Results) > 0 {
+			last := rs.Results[len(rs.Results)-1]
+			for {
+				if p, ok := last.(*ast.ParenExpr); ok {
+					last = p.X
+					continue
+				}
+				break
+			}
+			if tv, ok := ex.Info.Types[last]; ok && tv.IsNil() {
+				o.retNil = T
+			} else if id, ok := last.(*ast.Ident); ok {
+				if v, ok := retEnv(o, id.Name); ok {
+					o.retNil = v
+				}
+			}
+		}
+		o.Ret, o.RetStmt, o.Panic = st.Ret, st.RetStmt, false
+		o.stack = st.stack
+		o.bind = st.bind
+		o.tr = &trace{o.tr, fmt.Sprintf("leave %s [%s]", fi.Obj.Name(), o.TS)}
+		out = append(out, o)
+	}
+	return out
+}
+
+func retEnv(o *State, name string) (Tri, bool) {
+	v, ok := o.retFacts[name]
+	return v, ok && v != Unk
+}
+
+// replaceIdent replaces whole-identifier occurrences of from (possibly a dotted path) in k.
+func replaceIdent(k, from, to string) string {
+	var b strings.Builder
+	for i := 0; i < len(k); {
+		if strings.HasPrefix(k[i:], from) && (i == 0 || !isIdentChar(k[i-1]) && k[i-1] != '.') && (i+len(from) == len(k) || !isIdentChar(k[i+len(from)])) {
+			b.WriteString(to)
+			i += len(from)
+			continue
+		}
+		b.WriteByte(k[i])
+		i++
+	}
+	return b.String()
 }
 
 func (ex *Explorer) scanCallOnly(c *Ctx, call *ast.CallExpr) {
